@@ -32,7 +32,7 @@ OPTIONAL = [f for f in M.FIELDS if f[0] != "Resolution"]
 NAMES = [f[0] for f in M.FIELDS]
 VFRAGS = ['"', "=", " = ", " ", "  ", "\t", "é", "漢字", "x", "The Song", ", 2018", "song.ogg", "rock", "0",
           "Resolution = 5", 'Artist = "x"', "Offset = 7", "Player2 = rhythm", "bass", "\\", "'", "[Song]",
-          "{", "}"] + NAMES + G.UNICODE_ODDITIES + G.MARKUP_ODDITIES
+          "{", "}"] + NAMES + G.UNICODE_ODDITIES + G.MARKUP_ODDITIES + G.WRAPPED
 str_values = st.one_of(
     st.lists(st.sampled_from(VFRAGS), min_size=1, max_size=4).map("".join),
     st.text(alphabet=st.characters(min_codepoint=32, max_codepoint=0x2FF,
